@@ -120,6 +120,14 @@ CHECKS = {
             'first that returns; the borrowed text must be written verbatim with status borrowed; noDeps keeps '
             'requested modules eligible; real borrowers only return files with a listed extension.',
             'Model of "failed" = no usable source or generator raised.', '4/C19'),
+    'C18': ('exploration',
+            'Hypothesis histories of incremental index builds over colliding OID sets; validity-predicate oracle '
+            '(component-wise cover, no foreign listing, section equality, monotone merge, byte idempotence); exhaustive small scope',
+            'Each history of 1-4 batches is indexed step by step (genIndex, and buildIndex with a real FileWriter); '
+            'after every step every OID ever defined must be covered by a component-wise prefix entry naming its '
+            'module, no module may be listed under an OID it does not define, identity/enterprise/compliance must be '
+            'exact, and re-indexing the step must not change a byte. 4k small-scope histories are enumerated completely.',
+            'Status objects are built the way compile() builds them; cumulative cover implies monotonicity.', '4/C18'),
     'C11': ('exploration',
             'exhaustive prefix enumeration of generated files + Hypothesis token mutants/noise; oracle = exception '
             'type, completeness by the renderer span table, exact line of never-viable tokens; atheris in thorough',
